@@ -98,6 +98,14 @@ let run_fd (args : sexp list) : string =
        (match op with
         | "iter" -> show_zlist (fd_iter a)
         | "iter_rev" -> show_zlist (fd_iter_rev a)
+        | "into_iter" -> show_zlist (fd_iter a)
+        | "into_rev" -> show_zlist (fd_iter_rev a)
+        | "into_alt" ->
+          let rec alt front l = (match l with
+            | [] -> []
+            | _ -> if front then List.hd l :: alt false (List.tl l)
+                   else (let r = List.rev l in List.hd r :: alt true (List.rev (List.tl r)))) in
+          show_zlist (alt true (fd_iter a))
         | "min" -> (match fd_min a with None -> "panic" | Some x -> string_of_z x)
         | "max" -> (match fd_max a with None -> "panic" | Some x -> string_of_z x)
         | "is_singleton" -> show_bool (fd_is_singleton a)
